@@ -238,6 +238,47 @@ def rule_paired(rep: Report, repo: Repo) -> None:
               'C02.PAIRED-UPDATE', 'close_and_add_segment', str(args), f'{ASM}:{clo.lineno}', expected='[first_address, next_wflip_address) with both word lists')
 
 
+def rule_flush_all(rep: Report, repo: Repo) -> None:
+    rep.rule('C02.FLUSH-ALL', 'a segment is written out with everything buffered for it: in add_segment_to_fjm and in every BinaryData '
+             'method that calls it, a return that skips the write is taken only under the test that the address range handed to the '
+             'write is empty (first == last over the same two operands); emptiness of one of the word lists is not that test - chain '
+             'ops may be buffered in wflip_words while fj_words is empty (after a reserve)', 2)
+    def early_returns(fn: ast.AST, before_line: int) -> List[Tuple[ast.Return, List[str]]]:
+        out = []
+        for n in ast.walk(fn):
+            if isinstance(n, ast.If):
+                for r in n.body:
+                    if isinstance(r, ast.Return) and r.lineno < before_line:
+                        conj = n.test.values if isinstance(n.test, ast.BoolOp) and isinstance(n.test.op, ast.And) else [n.test]
+                        out.append((r, [norm(c) for c in conj]))
+        bare = [r for r in getattr(fn, 'body', []) if isinstance(r, ast.Return) and r.lineno < before_line]
+        out += [(r, []) for r in bare]
+        return out
+    seg = repo.func(ASM, 'add_segment_to_fjm')
+    writes = [c for c in calls(seg) if dotted(c.func) == 'fjm_writer.add_segment']
+    if not writes:
+        raise AnalysisError('C02.FLUSH-ALL: add_segment_to_fjm no longer calls fjm_writer.add_segment')
+    ers = early_returns(seg, writes[0].lineno)
+    ok = all(('first_address == last_address' in g or 'last_address == first_address' in g) for _, g in ers)
+    rep.check(ok, 'C02.FLUSH-ALL', 'add_segment_to_fjm', f'{len(ers)} early return(s) guarded by {[g for _, g in ers]}', f'{ASM}:{seg.lineno}',
+              expected='only `first_address == last_address` skips the write')
+    n = 0
+    for name, fns in repo.methods(ASM, 'BinaryData').items():
+        fn = fns[-1]
+        fl = [c for c in calls(fn) if dotted(c.func) == 'add_segment_to_fjm']
+        if not fl:
+            continue
+        n += 1
+        a, b = norm(fl[0].args[2]), norm(fl[0].args[3])
+        ers = early_returns(fn, fl[0].lineno)
+        bad = [g for _, g in ers if f'{a} == {b}' not in g and f'{b} == {a}' not in g]
+        rep.check(not bad, 'C02.FLUSH-ALL', f'BinaryData.{name}', f'{len(ers)} early return(s); not tied to the range test: {bad}' if bad else
+                  f'{len(ers)} early return(s), each under `{b} == {a}`', f'{ASM}:{fn.lineno}',
+                  expected=f'a return before the write only under `{b} == {a}`')
+    if n < 2:
+        raise AnalysisError('C02.FLUSH-ALL: fewer than 2 flushing BinaryData methods found')
+
+
 def rule_pad_state(rep: Report, repo: Repo) -> None:
     rep.rule('C02.PAD-STATE', 'the recorded padding holes index into fj_words: every BinaryData method that hands fj_words to '
              'add_segment_to_fjm (which clears it) clears padding_ops_indices before the next wflip can look for a hole', 3)
@@ -301,6 +342,7 @@ def check(rep: Report, repo: Optional[Repo] = None) -> None:
     rule_wflip_once(rep, repo)
     rule_paired(rep, repo)
     rule_pad_state(rep, repo)
+    rule_flush_all(rep, repo)
     rule_validate_first(rep, repo)
     rep.not_decided += ['that every emitted word equals its expression value (C12 decides the operator tables)',
                         'the content and sharing of wflip chains (value-level)']
